@@ -460,6 +460,36 @@ def step (s : St) (op : List String) (impl : Option (List String)) : St × Strin
            ("shannon_nonneg", !(v1.all (· ≤ 1.0)) || g ≥ 0.0)]
         else [])
     | _ => bad
+  | "shannondisc" =>
+    match v0 with
+    | [base] =>
+      (s, showF (VecTools.shannonDiscrete v1 base), onScalar impl "shannonDiscrete_spec" fun g =>
+        if allFinite v1 && finite base && base > 1.0 && !v1.isEmpty then
+          let n := Float.ofNat v1.length
+          let distinct := v1.foldl (fun acc x => if acc.any (· == x) then acc else acc ++ [x]) []
+          let h := - fsum (distinct.map (fun x =>
+            let c := Float.ofNat (v1.filter (· == x)).length
+            (c / n) * Float.log (c / n) / Float.log base))
+          [("shannonDiscrete_spec", fclose g h 1e-9),
+           ("entropy_range", g ≥ -1e-12 && g ≤ Float.log n / Float.log base + 1e-9)]
+        else [])
+    | _ => bad
+  | "midisc" =>
+    match v0 with
+    | [base] =>
+      (s, showRes showF (VecTools.miDiscrete v1 v2 base), dimOr v1 v2 fun _ => onScalar impl "miDiscrete_spec" fun g =>
+        if allFinite v1 && allFinite v2 && finite base && base > 1.0 && !v1.isEmpty then
+          let n := Float.ofNat v1.length
+          let pairs := List.zip v1 v2
+          let distinct := pairs.foldl (fun acc p => if acc.any (fun q => q.1 == p.1 && q.2 == p.2) then acc else acc ++ [p]) []
+          let cnt (l : List Float) (x : Float) : Float := Float.ofNat (l.filter (· == x)).length
+          let mi := fsum (distinct.map (fun p =>
+            let c := Float.ofNat (pairs.filter (fun q => q.1 == p.1 && q.2 == p.2)).length
+            (c / n) * Float.log (c * n / (cnt v1 p.1 * cnt v2 p.2)) / Float.log base))
+          [("miDiscrete_spec", fclose g mi 1e-9),
+           ("mi_nonneg", g ≥ -1e-9)]
+        else [])
+    | _ => bad
   | "seq" =>
     match v0 with
     | [frm, to, by_] =>
@@ -517,6 +547,9 @@ def step (s : St) (op : List String) (impl : Option (List String)) : St × Strin
       | some a, some b, some gr => [("diff_iff", decide (IsDiff req rlt a b gr))]
       | some _, some _, none => [("diff_iff", false)]
       | _, _, _ => [])
+  | "containsall" =>
+    (s, showBool (VecTools.containsAll feq flt v0 v1),
+      if noNaN v0 && noNaN v1 then onBool impl "containsAll_iff" (v1.all (fun x => v0.any (fun y => y == x))) else "ok")
   | "havesame" =>
     (s, showBool (VecTools.haveSameElements feq flt v0 v1),
       match rats? v0, rats? v1 with
